@@ -13,7 +13,8 @@ step carries):
   unless the variant has `allow_fallback_on_error` off) or `constant` (`anonymous`: nothing recorded, always
   succeeds with the subject it shows);
 * authorizers / contextualizers — `remote` / `generic` calling the recorder with the subject and the value `v` of
-  their `values`; skipped when their condition is false for the probe;
+  their `values`; skipped when their condition is false for the probe; `cel` authorizers (flavour `silent`) call
+  nobody, and every expression the generator lets a cel or remote authorizer verify holds for every probe;
 * finalizers — `header` finalizers: every header they show is rendered (`{{ .Subject.ID }}`) and added for the
   upstream; the common header `X-Fin` is reported in execution order (`fin`), all others sorted (`hdr`);
 * error handlers — `redirect` (flavour `redirect`, the location names the handler), `default` (flavour
@@ -28,7 +29,7 @@ namespace Heimdall.Factory
 
 /-- how a catalogue mechanism shows itself -/
 inductive Flavour
-  | remote | constant | redirect | passthrough | challenge
+  | remote | constant | redirect | passthrough | challenge | silent
   deriving DecidableEq, Repr, Inhabited
 
 abbrev Flavours := Kind → String → Flavour
@@ -80,8 +81,8 @@ def errorStage (sh : Showing) (fl : Flavours) (p : Probe) (kind : String) : List
       ("", "authentication", ["Www-Authenticate=Basic realm=" ++ String.ofList (sh m).realm])
     else ("", "redirect:http://eh.test/" ++ m.id, [])
 
-def handlerCalls (sh : Showing) (p : Probe) (sub : String) (ms : List Mech) : List String :=
-  (ms.filter (·.runs p)).map fun m =>
+def handlerCalls (sh : Showing) (fl : Flavours) (p : Probe) (sub : String) (ms : List Mech) : List String :=
+  (ms.filter fun m => m.runs p && fl m.kind m.id != .silent).map fun m =>
     (if m.kind == .ctx then "ctx:" else "authz:") ++ m.id ++ ":" ++ sub ++ "/" ++
       renderTemplate sub (((sh m).values.lookup t!"v").getD [])
 
@@ -103,7 +104,7 @@ def execute (sh : Showing) (fl : Flavours) (e : Effective) (p : Probe) : Trace :
     { calls := calls, ret := r.1, perr := r.2.1, hdr := r.2.2 }
   | (calls, some sub) =>
     let hs := finalizerHeaders sh p sub e.fin
-    { calls := calls ++ handlerCalls sh p sub e.sh, fin := (hs.filter (·.1 == "X-Fin")).map (·.2),
+    { calls := calls ++ handlerCalls sh fl p sub e.sh, fin := (hs.filter (·.1 == "X-Fin")).map (·.2),
       hdr := otherHeaders hs, upstream := e.upstream }
 
 end Heimdall.Factory
